@@ -484,4 +484,6 @@ WITNESSES = [
     {"id": "C10.w-src_remove-steps-twice-after-a-removal", "rule": "C10.R3", "file": HT,
      "old": "\t\t\tlrtr_free(entry);\n\t\t\tspki_table_notify_clients(spki_table, &record, false);\n\t\t} else {",
      "new": "\t\t\tlrtr_free(entry);\n\t\t\tspki_table_notify_clients(spki_table, &record, false);\n\t\t\tif (current_node)\n\t\t\t\tcurrent_node = current_node->next;\n\t\t} else {"},
+    {"id": "C10.w-no-diff-for-a-reload-without-keys", "rule": "C10.R6", "file": "rtrlib/rtr/packets.c",
+     "old": "\t\t\t\tif (rtr_socket->spki_table->update_fp) {", "new": "\t\t\t\tif (rtr_socket->spki_table->update_fp && router_key_pdus_nindex > 0) {"},
 ]
